@@ -251,7 +251,24 @@ def check(prop, tier, seed):
     out_lines = []
     units = []
     for un in cfg['units']:
-        units.append(run_unit(un, tier, seed))
+        try:
+            units.append(run_unit(un, tier, seed))
+        except Undecided as e:
+            mine = [l for l in getattr(e, 'lints', []) if prop in l['tags']]
+            if not mine:
+                raise
+            # the unit could not be generated, but a syntactic obligation of this property is violated anyway
+            for l in mine:
+                rec = dict(unit=un, function=l['function'], label=l['label'], tags=l['tags'], message=l['message'], origin='syntactic',
+                           obligation='%s::%s::%s' % (un, l['function'].split('fn ')[-1], l['label']),
+                           diagnostic='syntactic obligation checked by the extractor (vx), not by Verus: ' + l['message'],
+                           note='the unit itself is undecided: ' + str(e))
+                rp = write_replay(prop, rec)
+                print('VIOLATION property=%s replay=%s no-failing-input-found' % (prop, rp))
+                print('  obligation: %s' % rec['obligation'])
+                print('  %s' % rec['message'][:200])
+            print('note: unit %s otherwise undecided: %s' % (un, str(e)[:200]))
+            return 1
     # failures tagged with this property
     mine, others = [], []
     for ur in units:
